@@ -1,0 +1,34 @@
+//go:build verif
+
+package withstack
+
+// Contracts for the deductive verifier in /verif (comment-only file; see /verif/DESIGN.md).
+
+//@ type withStack invariant self.cause != nil && self.stack != nil
+//@ method (*withStack).Error
+//@   props C10
+//@   ensures result == msg(self.cause)
+//@ method (*withStack).Cause
+//@   props C07 C10 C14
+//@   ensures result == self.cause
+//@ method (*withStack).Unwrap
+//@   props C07 C10 C14
+//@   ensures result == self.cause
+
+//@ func WithStackDepth
+//@   props C10 C07 C16
+//@   ensures err == nil ==> result == nil
+//@   ensures err != nil ==> typeis(result, *withStack) && result.(*withStack).cause == err
+
+//@ func WithStack
+//@   props C10 C16
+//@   ensures err == nil ==> result == nil
+//@   ensures err != nil ==> typeis(result, *withStack) && result.(*withStack).cause == err
+
+//@ func callers
+//@   props C16 C05
+//@   ensures result != nil
+
+//@ method (*stack).StackTrace
+//@   props C05 C11
+//@   loop 1: invariant 0 <= i
